@@ -25,7 +25,7 @@ COMPLETE = ('on_complete', 'on_next_complete')
 
 def plan(tier, seed):
     from . import c07
-    return [('endings', 1500 if tier == 'quick' else 50000), ('script', len(c07.script_cases(tier)))]
+    return [('endings', 4000 if tier == 'quick' else 60000), ('script', len(c07.script_cases(tier)))]
 
 
 def gen_case(rng, tier):
